@@ -7,9 +7,9 @@ import (
 )
 
 // C19: the back-off table and the retry horizon of doWithRetry (async.go).
-func init() { items = append(items, emitC19) }
+func init() { items = append(items, c19Emit) }
 
-func constantInt64(v constant.Value) (int64, bool) {
+func c19ConstantInt64(v constant.Value) (int64, bool) {
 	if v.Kind() != constant.Int {
 		v = constant.ToInt(v)
 	}
@@ -19,7 +19,7 @@ func constantInt64(v constant.Value) (int64, bool) {
 	return constant.Int64Val(v)
 }
 
-func emitC19(t *tr) {
+func c19Emit(t *tr) {
 	d, ok := t.decls["retryIntervals"]
 	if !ok {
 		t.errf("missing declaration retryIntervals")
